@@ -60,6 +60,11 @@ def parseValidator (s : String) : Option (Nat → Val → Except Exc Val) :=
   | ["id"] => some (fun _ x => .ok x)
   | ["mod7"] => some (fun _ x => .ok (if x ≥ 100 then x else x % 7))
   | ["rejneg"] => some (fun _ x => if x < 0 then .error .traitError else .ok x)
+  | ["int"] => some (fun _ x => .ok x)            -- a real `Int` trait: every value of the non-special pool is an int
+  | ["range", lo, hi] =>                           -- a real `Range(lo, hi)` trait (C fast validator)
+    match lo.toInt?, hi.toInt? with
+    | some lo, some hi => some (fun _ x => if lo ≤ x ∧ x ≤ hi then .ok x else .error .traitError)
+    | _, _ => none
   | ["failat", k, e] =>
     match k.toNat? with
     | some k => some (fun n x => if n = k then .error (Exc.ofName e) else .ok x)
